@@ -128,6 +128,7 @@ type srvOpts struct {
 	mute       bool
 	waitToReply bool
 	limiter    *rate.Limiter
+	defaultWant bool // ServerConfig.DefaultWant = [n4 n6] (what the node asks for in ITS OWN queries; what NewDefaultServerConfig sets)
 }
 
 type srvScen struct {
@@ -178,6 +179,9 @@ func (r *Run) newSrvScen(o srvOpts) *srvScen {
 	cfg := baseConfig(sc.conn)
 	cfg.NoSecurity = o.noSecurity
 	cfg.Passive = o.passive
+	if o.defaultWant {
+		cfg.DefaultWant = []krpc.Want{krpc.WantNodes, krpc.WantNodes6}
+	}
 	if o.root != nil {
 		cfg.NodeId = *o.root
 	} else {
